@@ -3,6 +3,7 @@ package svc
 import (
 	"context"
 	"fmt"
+	"io"
 	"net/netip"
 	"time"
 
@@ -230,87 +231,164 @@ func (e *Env) ServeUDPUpstream(cs *ClientSpec, onPacket func(p *UpPacket), onGar
 	} else if cs.Proto != PNone && cs.Proto != PSocks5 {
 		return nil, fmt.Errorf("svc: no UDP upstream for protocol %q", cs.Proto)
 	}
-	if cs.Proto == PSocks5 {
+	byAddr := map[netip.AddrPort]*upSession{}
+	byCSID := map[uint64]*upSession{}
+	var serve func(sock *simnet.UDPConn, name string)
+	if cs.Proto == PSocks5 && cs.Socks5PortPerAssoc {
+		// A SOCKS5 server written from RFC 1928/1929: every UDP ASSOCIATE gets a relay socket of
+		// its own, which lives as long as the TCP connection that asked for it.
+		ln := e.Up.ListenTCP(netip.Addr{}, cs.Port)
+		e.S.Go("socks5-assoc.accept."+cs.Name, func() {
+			for k := 0; ; k++ {
+				c, err := ln.AcceptTCP()
+				if err != nil {
+					return
+				}
+				e.S.Go(fmt.Sprintf("socks5-assoc.%s.%d", cs.Name, k), func() {
+					defer c.Close()
+					rd := func(n int) []byte {
+						b := make([]byte, n)
+						if _, err := io.ReadFull(c, b); err != nil {
+							return nil
+						}
+						return b
+					}
+					h := rd(2)
+					if h == nil || h[0] != 5 || rd(int(h[1])) == nil {
+						return
+					}
+					if cs.Auth {
+						c.Write([]byte{5, 2})
+						a := rd(2)
+						if a == nil {
+							return
+						}
+						u := rd(int(a[1]))
+						pl := rd(1)
+						if u == nil || pl == nil {
+							return
+						}
+						pw := rd(int(pl[0]))
+						if pw == nil || string(u) != cs.User.Name || string(pw) != cs.User.Password {
+							c.Write([]byte{1, 1})
+							return
+						}
+						c.Write([]byte{1, 0})
+					} else {
+						c.Write([]byte{5, 0})
+					}
+					q := rd(4)
+					if q == nil || q[0] != 5 {
+						return
+					}
+					switch q[3] {
+					case 1:
+						rd(4 + 2)
+					case 4:
+						rd(16 + 2)
+					case 3:
+						l := rd(1)
+						if l == nil {
+							return
+						}
+						rd(int(l[0]) + 2)
+					}
+					if q[1] != 3 {
+						c.Write([]byte{5, 7, 0, 1, 0, 0, 0, 0, 0, 0})
+						return
+					}
+					us := e.Up.ListenUDP(netip.Addr{}, 0)
+					defer us.Close()
+					serve(us, fmt.Sprintf("%s.assoc%d", cs.Name, k))
+					ap := us.LocalAddrPort()
+					ip := UpIP4.As4()
+					c.Write(append(append([]byte{5, 0, 0, 1}, ip[:]...), byte(ap.Port()>>8), byte(ap.Port())))
+					io.Copy(io.Discard, c) // the association ends with its TCP connection
+				})
+			}
+		})
+	} else if cs.Proto == PSocks5 {
 		// the UDP association is requested over TCP from the repository's SOCKS5 server, which
 		// answers with the connection's local address: the UDP socket above listens on that port
 		if _, err := e.ServeUpstream(cs, func(u *UpConn) {}); err != nil {
 			return nil, err
 		}
 	}
-	byAddr := map[netip.AddrPort]*upSession{}
-	byCSID := map[uint64]*upSession{}
 	const front = 1024
-	e.S.Go("udp-upstream."+cs.Name, func() {
-		for {
-			b := make([]byte, front+65536+1024)
-			n, _, _, src, err := sock.ReadMsgUDPAddrPort(b[front:front+65536], nil)
-			if err != nil {
-				return
-			}
-			var sess *upSession
-			if ssrv != nil {
-				pkt := b[front : front+n]
-				csid, err := ssrv.SessionInfo(pkt)
+	serve = func(sock *simnet.UDPConn, name string) {
+		e.S.Go("udp-upstream."+name, func() {
+			for {
+				b := make([]byte, front+65536+1024)
+				n, _, _, src, err := sock.ReadMsgUDPAddrPort(b[front:front+65536], nil)
 				if err != nil {
-					if onGarbage != nil {
-						onGarbage(src, err)
-					}
-					continue
+					return
 				}
-				sess = byCSID[csid]
-				if sess == nil {
-					upk, _, err := ssrv.NewUnpacker(pkt, csid)
+				var sess *upSession
+				if ssrv != nil {
+					pkt := b[front : front+n]
+					csid, err := ssrv.SessionInfo(pkt)
 					if err != nil {
 						if onGarbage != nil {
 							onGarbage(src, err)
 						}
 						continue
 					}
-					sess = &upSession{upk: upk}
-					byCSID[csid] = sess
-				}
-			} else {
-				sess = byAddr[src]
-				if sess == nil {
-					var upk zerocopy.ServerUnpacker
-					if cs.Proto == PSocks5 {
-						upk, _ = direct.Socks5UDPNATServer{}.NewUnpacker()
-					} else {
-						upk, _ = direct.ShadowsocksNoneUDPNATServer{}.NewUnpacker()
-					}
-					sess = &upSession{upk: upk}
-					byAddr[src] = sess
-				}
-			}
-			target, start, l, err := sess.upk.UnpackInPlace(b, src, front, n)
-			if err != nil {
-				if onGarbage != nil {
-					onGarbage(src, err)
-				}
-				continue
-			}
-			from := src
-			onPacket(&UpPacket{Target: target, Payload: append([]byte(nil), b[start:start+l]...), From: from, Wire: n,
-				Reply: func(source netip.AddrPort, payload []byte) error {
-					if sess.pk == nil {
-						pk, err := sess.upk.NewPacker()
+					sess = byCSID[csid]
+					if sess == nil {
+						upk, _, err := ssrv.NewUnpacker(pkt, csid)
 						if err != nil {
-							return err
+							if onGarbage != nil {
+								onGarbage(src, err)
+							}
+							continue
 						}
-						sess.pk = pk
+						sess = &upSession{upk: upk}
+						byCSID[csid] = sess
 					}
-					hr := sess.pk.ServerPackerInfo().Headroom
-					rb := make([]byte, hr.Front+len(payload)+hr.Rear)
-					copy(rb[hr.Front:], payload)
-					ps, pl, err := sess.pk.PackInPlace(rb, source, hr.Front, len(payload), ipMTU(mtu, from.Addr()))
-					if err != nil {
-						return &PackError{err}
+				} else {
+					sess = byAddr[src]
+					if sess == nil {
+						var upk zerocopy.ServerUnpacker
+						if cs.Proto == PSocks5 {
+							upk, _ = direct.Socks5UDPNATServer{}.NewUnpacker()
+						} else {
+							upk, _ = direct.ShadowsocksNoneUDPNATServer{}.NewUnpacker()
+						}
+						sess = &upSession{upk: upk}
+						byAddr[src] = sess
 					}
-					_, err = sock.WriteToUDPAddrPort(rb[ps:ps+pl], from)
-					return err
-				}})
-		}
-	})
+				}
+				target, start, l, err := sess.upk.UnpackInPlace(b, src, front, n)
+				if err != nil {
+					if onGarbage != nil {
+						onGarbage(src, err)
+					}
+					continue
+				}
+				from := src
+				onPacket(&UpPacket{Target: target, Payload: append([]byte(nil), b[start:start+l]...), From: from, Wire: n,
+					Reply: func(source netip.AddrPort, payload []byte) error {
+						if sess.pk == nil {
+							pk, err := sess.upk.NewPacker()
+							if err != nil {
+								return err
+							}
+							sess.pk = pk
+						}
+						hr := sess.pk.ServerPackerInfo().Headroom
+						rb := make([]byte, hr.Front+len(payload)+hr.Rear)
+						copy(rb[hr.Front:], payload)
+						ps, pl, err := sess.pk.PackInPlace(rb, source, hr.Front, len(payload), ipMTU(mtu, from.Addr()))
+						if err != nil {
+							return &PackError{err}
+						}
+						_, err = sock.WriteToUDPAddrPort(rb[ps:ps+pl], from)
+						return err
+					}})
+			}
+		})
+	}
+	serve(sock, cs.Name)
 	return sock, nil
 }
 
